@@ -15,8 +15,14 @@ func (e *Exec) tryInline(call *ast.CallExpr, st *State, ctx *Ctx, k func(*State,
 	info := e.info(ctx)
 	callee := e.calleeOf(call, info)
 	if callee != nil && inlinable(callee) {
-		e.inlineFunc(callee, call, st, ctx, k)
+		e.inlineFunc(callee, call, st, ctx, nil, k)
 		return true
+	}
+	if callee == nil {
+		if model, pre, wrap := e.modelFor(call, st, ctx); model != nil {
+			e.inlineFunc(model, call, st, ctx, pre, func(st2 *State, vals []string) { k(st2, wrap(st2, vals)) })
+			return true
+		}
 	}
 	// call of a function-typed parameter bound to a literal: run the literal's body
 	if id, ok := call.Fun.(*ast.Ident); ok {
@@ -30,7 +36,8 @@ func (e *Exec) tryInline(call *ast.CallExpr, st *State, ctx *Ctx, k func(*State,
 	return false
 }
 
-func (e *Exec) inlineFunc(callee *FuncInfo, call *ast.CallExpr, st *State, ctx *Ctx, k func(*State, []string)) {
+// pre: terms for parameters that are not taken from the call's argument list (library models, see modelFor).
+func (e *Exec) inlineFunc(callee *FuncInfo, call *ast.CallExpr, st *State, ctx *Ctx, pre map[int]string, k func(*State, []string)) {
 	if e.inlineDepth > 6 {
 		e.unsupported(call.Pos(), "inlining too deep")
 	}
@@ -38,6 +45,10 @@ func (e *Exec) inlineFunc(callee *FuncInfo, call *ast.CallExpr, st *State, ctx *
 	cinfo := callee.Pkg.TypesInfo
 	for i := 0; i < sig.Params().Len(); i++ {
 		p := sig.Params().At(i)
+		if t, ok := pre[i]; ok {
+			st.env[p] = t
+			continue
+		}
 		if i >= len(call.Args) {
 			e.unsupported(call.Pos(), "variadic inlined call")
 		}
